@@ -90,6 +90,9 @@ func (e mentry) coq() string {
 	return fmt.Sprintf("(mkE %s %d %s %s %s %s %s)", kn, e.ls, e.rev.coq(), b2s(e.dsr), b2s(e.rstts), e.a.coq(), e.b.coq())
 }
 
+// v6mode: the current case runs the IPv6 flavour (KeyV6/ValueV6, ipVersion 6 scanner, cali_v6_ccq value layout)
+var v6mode bool
+
 func realKey(k mkey) conntrack.Key {
 	if k.proto == 0 && k.id == 0 {
 		return conntrack.NewKey(0, net.IPv4zero, 0, net.IPv4zero, 0)
@@ -97,8 +100,29 @@ func realKey(k mkey) conntrack.Key {
 	return conntrack.NewKey(uint8(k.proto), net.IPv4(10, 0, byte(k.id>>8), byte(k.id)), uint16(k.id), net.IPv4(10, 1, 0, 1), 80)
 }
 
+func realKeyV6(k mkey) conntrack.KeyV6 {
+	if k.proto == 0 && k.id == 0 {
+		return conntrack.NewKeyV6(0, net.IPv6zero, 0, net.IPv6zero, 0)
+	}
+	ipA := net.ParseIP("fd00::1")
+	ipA[14], ipA[15] = byte(k.id>>8), byte(k.id)
+	return conntrack.NewKeyV6(uint8(k.proto), ipA, uint16(k.id), net.ParseIP("fd00:1::1"), 80)
+}
+
+func keyBytes(k mkey) []byte {
+	if v6mode {
+		kb := realKeyV6(k)
+		return append([]byte(nil), kb[:]...)
+	}
+	kb := realKey(k)
+	return append([]byte(nil), kb[:]...)
+}
+
 func modelKey(b []byte) mkey {
 	p := binary.LittleEndian.Uint32(b[0:4])
+	if len(b) == conntrack.KeyV6Size {
+		return mkey{p, uint32(binary.LittleEndian.Uint16(b[36:38]))}
+	}
 	id := uint32(binary.LittleEndian.Uint16(b[12:14]))
 	return mkey{p, id}
 }
@@ -111,6 +135,24 @@ func realValue(e mentry) []byte {
 	var flags uint32
 	if e.dsr {
 		flags |= v4.FlagNATFwdDsr
+	}
+	if v6mode {
+		var v conntrack.ValueV6
+		switch e.kind {
+		case 0:
+			v = conntrack.NewValueV6Normal(time.Duration(e.ls), flags, realLeg(e.a), realLeg(e.b))
+		case 1:
+			v = conntrack.NewValueV6NATForward(time.Duration(e.ls), flags, realKeyV6(e.rev))
+		case 2:
+			v = conntrack.NewValueV6NATReverse(time.Duration(e.ls), flags, realLeg(e.a), realLeg(e.b), net.IPv6zero, net.ParseIP("fd00:96::1"), 443)
+		default:
+			v = conntrack.NewValueV6Normal(time.Duration(e.ls), flags, realLeg(e.a), realLeg(e.b))
+			v[v4.VoTypeV6] = 7
+		}
+		if e.rstts {
+			binary.LittleEndian.PutUint64(v[v4.VoRSTSeenV6:v4.VoRSTSeenV6+8], 12345)
+		}
+		return append([]byte(nil), v[:]...)
 	}
 	var v conntrack.Value
 	switch e.kind {
@@ -128,6 +170,19 @@ func realValue(e mentry) []byte {
 		binary.LittleEndian.PutUint64(v[v4.VoRSTSeen:v4.VoRSTSeen+8], 12345)
 	}
 	return append([]byte(nil), v[:]...)
+}
+
+// newScanner builds the real Scanner + LivenessScanner of the current IP flavour over m, with the recording cleaner
+func newScanner(m *ctMap, tm timeouts.Timeouts, clk *clock) (*conntrack.Scanner, *recorder) {
+	lc := conntrack.NewLivenessScanner(tm, false, conntrack.WithTimeShim(clk))
+	if v6mode {
+		ccq := mock.NewMockMap(conntrack.MapParamsCleanupV6)
+		rec := &recorder{ccq: ccq}
+		return conntrack.NewScanner(m, conntrack.KeyV6FromBytes, conntrack.ValueV6FromBytes, nil, "Disabled", ccq, 6, rec, lc), rec
+	}
+	ccq := mock.NewMockMap(conntrack.MapParamsCleanup)
+	rec := &recorder{ccq: ccq}
+	return conntrack.NewScanner(m, conntrack.KeyFromBytes, conntrack.ValueFromBytes, nil, "Disabled", ccq, 4, rec, lc), rec
 }
 
 // ---------------------------------------------------------------- the conntrack map the scanner iterates
@@ -229,8 +284,7 @@ func (m *ctMap) Iter(f maps.IterCallback) error {
 				}
 			}
 		}
-		kb := realKey(k)
-		if f(kb[:], realValue(e)) == maps.IterDelete {
+		if f(keyBytes(k), realValue(e)) == maps.IterDelete {
 			panic("scanner asked for an immediate delete although a BPF cleaner is configured")
 		}
 		// a callback takes time (Model.tick1)
@@ -256,7 +310,16 @@ type recorder struct {
 func (r *recorder) Run(opts ...conntrack.RunOpt) (*conntrack.CleanupContext, error) {
 	var l []qent
 	for ks, vs := range r.ccq.Contents {
-		v := conntrack.CleanupValueFromBytes([]byte(vs))
+		var v interface {
+			OtherNATKey() conntrack.KeyInterface
+			Timestamp() uint64
+			RevTimestamp() uint64
+		}
+		if v6mode {
+			v = conntrack.CleanupValueV6FromBytes([]byte(vs))
+		} else {
+			v = conntrack.CleanupValueFromBytes([]byte(vs))
+		}
 		l = append(l, qent{modelKey([]byte(ks)), modelKey(v.OtherNATKey().AsBytes()), v.Timestamp(), v.RevTimestamp()})
 	}
 	sort.Slice(l, func(i, j int) bool {
@@ -376,10 +439,7 @@ func probe() bool {
 		rk: {kind: 2, ls: 100 * sec},
 		fk: {kind: 1, ls: 100 * sec, rev: rk},
 	}, clk: clk, order: []mkey{fk, rk}, sched: map[int][]event{}, fwdLive: map[mkey]bool{}}
-	ccq := mock.NewMockMap(conntrack.MapParamsCleanup)
-	rec := &recorder{ccq: ccq}
-	lc := conntrack.NewLivenessScanner(timeouts.DefaultTimeouts(), false, conntrack.WithTimeShim(clk))
-	sc := conntrack.NewScanner(m, conntrack.KeyFromBytes, conntrack.ValueFromBytes, nil, "Disabled", ccq, 4, rec, lc)
+	sc, rec := newScanner(m, timeouts.DefaultTimeouts(), clk)
 	sc.Scan()
 	for _, q := range rec.runs[0] {
 		if q.k == fk {
@@ -407,6 +467,12 @@ func oneCase(r *rng, enc *json.Encoder, idx int) {
 	tm, tmTag := genTimeouts(r)
 	g := &gen{r: r, t: tm}
 	tags := []string{tmTag}
+	v6mode = r.coin(40)
+	if v6mode {
+		tags = append(tags, "ip:v6")
+	} else {
+		tags = append(tags, "ip:v4")
+	}
 	k0 := int64(5000*sec) + int64(r.next()%uint64(1000*sec))
 	if r.coin(3) {
 		k0 = 0
@@ -484,10 +550,7 @@ func oneCase(r *rng, enc *json.Encoder, idx int) {
 		ct0 = append(ct0, fmt.Sprintf("(CE %s %s)", k.coq(), m.contents[k].coq()))
 	}
 
-	ccq := mock.NewMockMap(conntrack.MapParamsCleanup)
-	rec := &recorder{ccq: ccq}
-	lc := conntrack.NewLivenessScanner(tm, false, conntrack.WithTimeShim(clk))
-	sc := conntrack.NewScanner(m, conntrack.KeyFromBytes, conntrack.ValueFromBytes, nil, "Disabled", ccq, 4, rec, lc)
+	sc, rec := newScanner(m, tm, clk)
 
 	nScans := 1 + r.intn(3)
 	var segs []string
